@@ -8,6 +8,13 @@ T-corr: the extracted model (Model/Refine.v: vfit, quadratic, loop_pixel, refine
         synthetic volumes (one designed cost triple + disparity + mask per pixel), sequences of
         refinement steps on the same volume, the exhaustive domain {0..4,NaN}^3 x {on,off grid} x
         {min,max} x {vfit,quadratic}.
+        Plus FULL LEGAL PIPELINES through the real state machine (pandora.run on small image pairs:
+        matching_cost [sad|ssd|zncc, subpix 1|2], disparity, then any mix of median / bilateral filter,
+        interpolating cross-checking validation and 1-4 refinement steps): every execution of
+        refinement_run is intercepted, the state it received (cost volume, disparity map, mask; left and,
+        with cross_checking_accurate, right) is given to the model and to the oracle, and the invariant
+        the theorems assume of reachable states (valid pixel => finite disparity inside [dmin, dmax], one
+        cost per sample) is checked on it.
 Spec  : an independent Python oracle of the property clauses (closed forms of the user guide, exact
         Fractions) applied to the real outputs of every single step."""
 import math
@@ -28,15 +35,28 @@ RULE = ("a case is one pixel of one call of subpixel_refinement (or approximate_
         "valid-with-information-bits (incl. bit 3 from an earlier step) or every invalid bit; method in {vfit, "
         "quadratic} x measure in {min,max} x subpix in {1,2,4}; 1-3 refinement steps on the same volume. Non-trivial: "
         "the pixel is valid and its centre cost is a number (the per-pixel guard is reached). Distinct by (method(s), "
-        "measure, subpix, sample index relative to the ends, off-grid fraction, cost triple, mask).")
+        "measure, subpix, sample index relative to the ends, off-grid fraction, cost triple, mask). Pipeline cases: every "
+        "pixel of every state a real legal pipeline (sad|ssd|zncc, subpix 1|2, median/bilateral filters, interpolating "
+        "cross-checking, 1-4 refinement steps, masks, per-pixel disparity grids) hands to refinement_run, left and right maps; same non-triviality "
+        "rule, distinct by (method, measure, subpix, sample index, off-grid fraction, triple, mask).")
 ASSUMES = [
     "costs and disparities are exact rationals in the model; the kernels compute in float64 and store the disparity in "
     "float32: values are compared with core.close (bridging rule b), decisions (stopped / refined, flags, unchanged) "
     "exactly; generators use integer costs and disparities that are multiples of 1/8 so no decision is within rounding",
-    "a valid pixel carries a finite disparity inside [dmin, dmax] (C04's invariant); int(NaN) and reads beyond the "
-    "disparity axis are explicit POut outcomes of the model and the totality theorem proves they are not reached",
-    "numba semantics modelled, validated by the correspondence on every run: float division by zero raises, index -1 "
-    "wraps around, no bounds check, uint16 mask updated in place",
+    "reachable states are over-approximated by the invariant pixel_ok: a valid pixel carries a finite disparity inside "
+    "[dmin, dmax] (any rational, on or off the sampling grid) and the cost row has one cost per sample; the check "
+    "verifies it on every state a real pipeline hands to refinement_run; int(NaN) and reads beyond the disparity axis "
+    "are explicit POut outcomes of the model and the totality theorems prove they are not reached under the invariant",
+    "'its sample sits on an end of the interval' is read as: less than one whole sample between the received disparity "
+    "and dmin or dmax (for a disparity that is a sample: d = dmin or d = dmax, theorem C06_near_end_on_grid); the pixel's "
+    "sample is the one at or just below the received disparity; a valid pixel whose sample has a NaN cost (not one of "
+    "the property's three cases) must be left unchanged, which is what the code does",
+    "the pixel's disparity interval is the disparity range of the cost volume; with per-pixel disparity grids the "
+    "narrower interval of a pixel is seen by the kernel only as NaN costs (clause 'a neighbouring cost is NaN')",
+    "numba semantics modelled, validated by the correspondence on every run: index -1 wraps around, no bounds check, "
+    "uint16 mask updated in place with |=, int() truncates",
+    "loop_approximate_refinement (not called by any pipeline of this version) is modelled and compared on integer right "
+    "disparities only; no theorem is stated about it",
     "each pixel is independent of the others (prange write sets are the subject of C18)",
 ]
 TRUSTED = ["Gen/RefineConsts.v produced by translator/gen_refine_consts.py from the imported pandora.constants"]
@@ -411,16 +431,31 @@ def single_pixel_img(img, i, before, methods):
             "pixels": [{"cv": p["cv"], "disp": d, "mask": before[2], "dcls": p.get("dcls"), "tcls": p.get("tcls")}]}
 
 
+def _jq(c):
+    """a cost for a replay file: None | int | {"q": [num, den]}"""
+    if c is None or isinstance(c, int):
+        return c
+    c = F(c)
+    return int(c) if c.denominator == 1 else {"q": [c.numerator, c.denominator]}
+
+
+def _unjq(c):
+    return F(c["q"][0], c["q"][1]) if isinstance(c, dict) else c
+
+
 def to_json(img):
     out = dict(img)
-    out["pixels"] = [dict(p, disp=None if p["disp"] is None else [F(p["disp"]).numerator, F(p["disp"]).denominator])
+    out["dmin"], out["dmax"] = int(img["dmin"]), int(img["dmax"])
+    out["pixels"] = [dict(p, cv=[_jq(c) for c in p["cv"]],
+                          disp=None if p["disp"] is None else [F(p["disp"]).numerator, F(p["disp"]).denominator])
                      for p in img["pixels"]]
     return out
 
 
 def from_json(img):
     out = dict(img)
-    out["pixels"] = [dict(p, disp=None if p["disp"] is None else F(p["disp"][0], p["disp"][1])) for p in img["pixels"]]
+    out["pixels"] = [dict(p, cv=[_unjq(c) for c in p["cv"]],
+                          disp=None if p["disp"] is None else F(p["disp"][0], p["disp"][1])) for p in img["pixels"]]
     return out
 
 
@@ -637,6 +672,242 @@ def check_approx(ctx, case, model_res):
                           f"right map: mask {m0} -> {im[2]}: a bit other than bit 3 changed", dict(jcase, pixel=i))
 
 
+# ------------------------------------------------------------------ full legal pipelines (real state machine)
+
+
+def gen_pipeline_case(rng):
+    """a small stereo pair and a legal pipeline containing 1-4 refinement steps, possibly after filters / an
+    interpolating validation / earlier refinement steps"""
+    meas = rng.choice(["sad", "sad", "ssd", "zncc"])
+    win = rng.choice([1, 3])
+    s = rng.choice([1, 1, 2])
+    steps = [("matching_cost", {"matching_cost_method": meas, "window_size": win, "subpix": s}),
+             ("disparity", {"disparity_method": "wta", "invalid_disparity": rng.choice([-9999, "NaN"])})]
+    accurate = rng.random() < 0.35
+    tail = []
+    for _ in range(rng.randrange(1, 5)):
+        tail.append(("refinement", {"refinement_method": rng.choice(METHODS)}))
+    for _ in range(rng.randrange(0, 3)):
+        f = rng.choice([{"filter_method": "median", "filter_size": 3},
+                        {"filter_method": "bilateral", "sigma_color": float(rng.choice([2, 4])), "sigma_space": 1.0}])
+        tail.insert(rng.randrange(0, len(tail)), ("filter", f))
+    if accurate:
+        v = {"validation_method": "cross_checking_accurate", "cross_checking_threshold": float(rng.choice([0, 1]))}
+        if rng.random() < 0.7:
+            v["interpolated_disparity"] = rng.choice(["mc-cnn", "sgm"])
+        tail.insert(rng.randrange(0, len(tail)), ("validation", v))
+    steps += tail
+    names, seen = [], {}
+    for k, c in steps:
+        n = seen.get(k, 0)
+        seen[k] = n + 1
+        names.append([k if n == 0 else f"{k}.{n}", c])
+    rows, cols = rng.randrange(7, 10), rng.randrange(10, 14)
+    dmin = rng.randrange(-3, 0)
+    dmax = dmin + rng.choice([2, 3, 4])
+    maxv = rng.choice([6, 12, 40])
+    left = [[rng.randrange(0, maxv) for _ in range(cols)] for _ in range(rows)]
+    right = [[rng.randrange(0, maxv) for _ in range(cols)] for _ in range(rows)]
+    ml = [[1 if rng.random() < 0.04 else 0 for _ in range(cols)] for _ in range(rows)] if rng.random() < 0.5 else None
+    mr = [[1 if rng.random() < 0.04 else 0 for _ in range(cols)] for _ in range(rows)] if rng.random() < 0.5 else None
+    grids = None
+    if rng.random() < 0.35:
+        # per-pixel disparity intervals (grids): each pixel's own interval is a sub-interval of [dmin, dmax]
+        gmin = [[dmin + rng.randrange(0, 2) for _ in range(cols)] for _ in range(rows)]
+        gmax = [[dmax - rng.randrange(0, 2) for _ in range(cols)] for _ in range(rows)]
+        gmin[0][0], gmax[0][0] = dmin, dmax
+        grids = [gmin, gmax]
+    return {"pipeline": names, "left": left, "right": right, "mask_left": ml, "mask_right": mr, "interval": [dmin, dmax],
+            "grids": grids}
+
+
+def corpus_pipelines():
+    """the two full pipelines on which D13 was confirmed through the real state machine (before fix cc4b5f5):
+    (1) bilateral filter then vfit: pixel (6,4) received -1.5455, read index -1 and went to -2.0455 < dmin = -2;
+    (2) vfit three times: pixel (0,6) went 1 -> 1.4167 -> 1.8333 -> 2.25 > dmax = 2 (a fourth step would have read
+    the cost volume past its last disparity)"""
+    mc = {"matching_cost_method": "sad", "window_size": 1, "subpix": 1}
+    wta = {"disparity_method": "wta", "invalid_disparity": -9999}
+    return [
+        {"pipeline": [["matching_cost", mc], ["disparity", wta],
+                      ["filter", {"filter_method": "bilateral", "sigma_color": 4.0, "sigma_space": 1.0}],
+                      ["refinement", {"refinement_method": "vfit"}], ["refinement.1", {"refinement_method": "vfit"}]],
+         "left": [[10, 2, 6, 4, 4, 4, 10, 11, 1, 2, 2, 3], [11, 10, 6, 0, 4, 9, 7, 1, 0, 5, 4, 8],
+                  [4, 3, 0, 10, 8, 2, 1, 4, 11, 10, 1, 11], [6, 6, 9, 5, 6, 9, 2, 6, 2, 9, 9, 0],
+                  [8, 9, 6, 8, 9, 5, 2, 1, 1, 8, 7, 6], [10, 8, 10, 9, 2, 11, 10, 0, 9, 4, 0, 10],
+                  [8, 9, 10, 4, 4, 5, 6, 1, 8, 11, 11, 9], [5, 4, 4, 6, 7, 11, 0, 8, 8, 1, 10, 10]],
+         "right": [[11, 3, 0, 2, 0, 5, 7, 8, 5, 1, 0, 2], [1, 6, 6, 3, 2, 5, 10, 11, 7, 10, 9, 2],
+                   [1, 4, 7, 3, 5, 9, 8, 8, 3, 8, 3, 7], [10, 1, 3, 1, 8, 10, 5, 5, 1, 6, 10, 8],
+                   [4, 4, 5, 10, 3, 11, 5, 8, 10, 6, 1, 0], [9, 5, 1, 10, 0, 5, 0, 1, 8, 1, 1, 8],
+                   [4, 1, 4, 5, 1, 0, 4, 11, 9, 4, 0, 6], [10, 7, 8, 11, 2, 8, 11, 5, 4, 8, 9, 7]],
+         "mask_left": None, "mask_right": None, "interval": [-2, 2]},
+        {"pipeline": [["matching_cost", mc], ["disparity", wta], ["refinement", {"refinement_method": "vfit"}],
+                      ["refinement.1", {"refinement_method": "vfit"}], ["refinement.2", {"refinement_method": "vfit"}],
+                      ["refinement.3", {"refinement_method": "vfit"}]],
+         "left": [[1, 4, 5, 4, 7, 11, 5, 2, 7], [7, 11, 2, 0, 4, 0, 11, 5, 6], [0, 8, 6, 5, 6, 9, 0, 7, 0],
+                  [11, 2, 9, 3, 1, 3, 7, 5, 8]],
+         "right": [[5, 8, 4, 7, 1, 9, 11, 5, 4], [0, 6, 1, 3, 5, 8, 9, 5, 2], [5, 4, 11, 8, 1, 4, 10, 5, 4],
+                   [2, 1, 10, 2, 11, 11, 4, 7, 2]],
+         "mask_left": None, "mask_right": None, "interval": [-2, 2]},
+    ]
+
+
+def run_pipeline(case):
+    """pandora.run on the case; -> (snaps, error).  snaps: one entry per execution of subpixel_refinement inside
+    refinement_run: (step name, side, method, cost volume, coords, subpix, type_measure, before, after)"""
+    import pandora
+    from pandora.state_machine import PandoraMachine
+    from harness import pandora_util as pu
+
+    itv = tuple(case["interval"])
+    if case.get("grids"):
+        L = pu.image_dataset(np.array(case["left"], dtype=np.float32), mask=case["mask_left"],
+                             grids=(np.array(case["grids"][0]), np.array(case["grids"][1])))
+    else:
+        L = pu.image_dataset(np.array(case["left"], dtype=np.float32), disp=itv, mask=case["mask_left"])
+    R = pu.image_dataset(np.array(case["right"], dtype=np.float32), disp=None, mask=case["mask_right"])
+    cfg = {"pipeline": {n: dict(c) for n, c in case["pipeline"]}}
+    m = PandoraMachine()
+    snaps = []
+    orig = m.refinement_run
+
+    def grab(ds, coeff):
+        return (ds["disparity_map"].data.copy(), ds["validity_mask"].data.copy(),
+                ds["interpolated_coeff"].data.copy() if coeff else None)
+
+    def spy(c, step, _orig=orig):
+        sides = [("left", "left_cv", "left_disparity")]
+        if m.right_disp_map == "cross_checking_accurate":
+            sides.append(("right", "right_cv", "right_disparity"))
+        pre = {sd: (getattr(m, cvn)["cost_volume"].data.copy(), grab(getattr(m, dn), False)) for sd, cvn, dn in sides}
+        err = None
+        try:
+            _orig(c, step)
+        except BaseException as exc:  # pylint: disable=broad-except
+            if isinstance(exc, KeyboardInterrupt):
+                raise
+            err = type(exc).__name__
+        for sd, cvn, dn in sides:
+            cvds = getattr(m, cvn)
+            snaps.append({"step": step, "side": sd, "method": c["pipeline"][step]["refinement_method"],
+                          "cv": pre[sd][0], "coords": cvds.coords["disp"].data.copy(),
+                          "subpix": int(cvds.attrs["subpixel"]), "measure": cvds.attrs["type_measure"],
+                          "before": pre[sd][1], "after": None if err else grab(getattr(m, dn), True),
+                          "cv_after": cvds["cost_volume"].data.copy(), "error": err})
+        if err:
+            raise RuntimeError("refinement raised " + err)
+
+    m.refinement_run = spy
+    try:
+        pandora.run(m, L, R, cfg)
+    except BaseException as exc:  # pylint: disable=broad-except
+        if isinstance(exc, KeyboardInterrupt):
+            raise
+        return snaps, f"{type(exc).__name__}: {str(exc)[:100]}"
+    return snaps, None
+
+
+def snap_to_img(snap):
+    """the state one refinement step received, as an image of the synthetic kind (exact Fractions)"""
+    cv = snap["cv"]
+    rows, cols, nd = cv.shape
+    d0, m0, _ = snap["before"]
+    px = []
+    for r in range(rows):
+        for c in range(cols):
+            row = [fq(float(v)) for v in cv[r, c]]
+            px.append({"cv": row, "disp": fq(float(d0[r, c])), "mask": int(m0[r, c]), "dcls": "pipeline", "tcls": "pipeline"})
+    coords = snap["coords"]
+    return {"methods": [snap["method"]], "measure": snap["measure"], "subpix": snap["subpix"],
+            "dmin": fq(float(coords[0])), "dmax": fq(float(coords[-1])), "pixels": px}
+
+
+def check_pipeline(ctx, case):
+    names = [n for n, _ in case["pipeline"]]
+    snaps, err = run_pipeline(case)
+    ctx.traces += 1
+    ctx.count("pipelines_run")
+    if err is not None:
+        ctx.count("pipelines_raised")
+        ctx.violation("pipeline_raises", f"legal pipeline {names} raised {err}", case)
+    imgs = []
+    for snap in snaps:
+        img = snap_to_img(snap)
+        n = len(img["pixels"])
+        s, dmin, dmax = img["subpix"], img["dmin"], img["dmax"]
+        where = f"pipeline {names}, step {snap['step']} ({snap['side']} map)"
+        ctx.count("pipeline_refinement_steps")
+        ctx.count("pipeline_steps_" + snap["side"])
+        # --- the invariant the theorems assume of reachable states
+        nd = snap["cv"].shape[2]
+        if dmin.denominator != 1 or dmax.denominator != 1 or nd != (dmax - dmin) * s + 1:
+            ctx.violation("invariant_cost_row_does_not_fit", f"{where}: {nd} costs for [{dmin},{dmax}] subpix {s}", case)
+            continue
+        img["dmin"], img["dmax"] = int(dmin), int(dmax)
+        offgrid = 0
+        for i, p in enumerate(img["pixels"]):
+            if p["mask"] & INVALID:
+                continue
+            d = p["disp"]
+            if d is None or d < dmin or d > dmax:
+                ctx.violation("invariant_valid_pixel_outside_interval",
+                              f"{where}: valid pixel {i} (mask {p['mask']}) carries disparity {d} outside [{dmin},{dmax}]", case)
+            elif ((d - dmin) * s).denominator != 1:
+                offgrid += 1
+        ctx.count("pipeline_valid_offgrid_pixels", offgrid)
+        if not np.array_equal(snap["cv"], snap["cv_after"], equal_nan=True):
+            ctx.violation("cost_volume_modified", f"{where}: the refinement step changed the cost volume", case)
+        if snap["after"] is None:
+            continue
+        imgs.append((img, snap, where))
+    if not imgs:
+        return
+    mres = ctx.model.batch([model_case(img) for img, _, _ in imgs])
+    for (img, snap, where), mr in zip(imgs, mres):
+        n = len(img["pixels"])
+        mod = dec_model(mr)
+        d0, m0, _ = snap["before"]
+        d1, m1, c1 = snap["after"]
+        before = [(float(d0.reshape(-1)[i]), float("nan"), int(m0.reshape(-1)[i])) for i in range(n)]
+        after = [(float(d1.reshape(-1)[i]), float(c1.reshape(-1)[i]), int(m1.reshape(-1)[i])) for i in range(n)]
+        for i, p in enumerate(img["pixels"]):
+            valid = not p["mask"] & INVALID
+            key = None
+            if valid and p["disp"] is not None and img["dmin"] <= p["disp"] <= img["dmax"]:
+                x = (p["disp"] - img["dmin"]) * img["subpix"]
+                k = math.floor(x)
+                if p["cv"][k] is not None:
+                    key = ("pipe", snap["method"], img["measure"], img["subpix"], k, x - k,
+                           tuple(p["cv"][max(0, k - 1):k + 2]), p["mask"])
+            ctx.case(key)
+            for clause, text in oracle_pixel(img, snap["method"], p, before[i], after[i]):
+                ctx.count("oracle_fail_" + clause)
+                one = single_pixel_img(img, i, before[i], [snap["method"]])
+                ctx.violation(f"{clause}_{pixel_class(img, p, before[i], clause)}",
+                              f"{where}, pixel {i}: {text}", to_json(one))
+            # "stays inside the PIXEL's disparity interval" with per-pixel grids (left map): a pixel that received a
+            # sample of its own interval must end inside its own interval (theorem C06_pixel_moved_costed + NaN costs
+            # outside the pixel's interval)
+            if case.get("grids") and snap["side"] == "left" and valid and p["disp"] is not None:
+                cols = len(case["left"][0])
+                lo, hi = case["grids"][0][i // cols][i % cols], case["grids"][1][i // cols][i % cols]
+                on_grid = ((p["disp"] - img["dmin"]) * img["subpix"]).denominator == 1
+                if on_grid and lo <= p["disp"] <= hi:
+                    ctx.count("pixel_grid_interval_checked")
+                    a = fq(after[i][0])
+                    if a is None or a < lo or a > hi:
+                        ctx.count("oracle_fail_pixel_interval")
+                        ctx.violation("pixel_interval_ongrid", f"{where}, pixel {i} with own interval [{lo},{hi}]: sample "
+                                      f"{p['disp']} refined to {after[i][0]}, outside its interval", case)
+        if mod[0] != "ok":
+            ctx.mismatch("pipeline_refine_step", {"where": where, "case": case}, "returned", mod[0])
+            continue
+        for i in range(n):
+            if not same_pixel(after[i], mod[1][i]):
+                one = single_pixel_img(img, i, before[i], [snap["method"]])
+                ctx.mismatch("pipeline_loop_pixel", to_json(one), [str(v) for v in after[i]], [str(v) for v in mod[1][i]])
+
+
 # ------------------------------------------------------------------ entry point
 
 
@@ -647,7 +918,9 @@ def run(ctx):
 
     if getattr(ctx, "replay_case", None) is not None:
         rc = ctx.replay_case
-        if "cvs" in rc:
+        if "pipeline" in rc:
+            images, approx = [], []
+        elif "cvs" in rc:
             images = []
             approx = [dict(rc, pixels=[[p[0], F(p[1][0], p[1][1]), p[2]] for p in rc["pixels"]])]
             approx[0].pop("pixel", None)
@@ -681,6 +954,16 @@ def run(ctx):
         p = img["pixels"][0]
         ctx.sample({"methods": img["methods"], "measure": img["measure"], "subpix": img["subpix"],
                     "interval": [img["dmin"], img["dmax"]], "cv": p["cv"], "disp": str(p["disp"]), "mask": p["mask"]})
+
+    if getattr(ctx, "replay_case", None) is not None and "pipeline" in ctx.replay_case:
+        pcases = [ctx.replay_case]
+    elif getattr(ctx, "replay_case", None) is not None:
+        pcases = []
+    else:
+        pcases = corpus_pipelines() + [gen_pipeline_case(rng) for _ in range(24 if quick else 400)]
+    for pc in pcases:
+        check_pipeline(ctx, pc)
+    ctx.stats["pipelines"] = len(pcases)
 
     if approx:
         ares = ctx.model.batch([(3, [METHODS.index(c["method"]), MEASURES.index(c["measure"]), c["dmin"], c["dmax"],
